@@ -16,7 +16,43 @@ def make_session(world, prop, tier, seed):
     raise ValueError(world)
 
 
+_OSRV = {}
+
+
+def _oserver():
+    import os, subprocess
+    pid = os.getpid()
+    srv = _OSRV.get(pid)
+    if srv is None or srv.poll() is not None:
+        here = os.path.dirname(os.path.dirname(os.path.abspath(__file__)))
+        srv = subprocess.Popen([sys.executable, '-O', '-m', 'pvsim.oserver'], cwd=here, stdin=subprocess.PIPE, stdout=subprocess.PIPE,
+                               text=True, bufsize=1)
+        _OSRV.clear()
+        _OSRV[pid] = srv
+    return srv
+
+
 def execute(session):
+    """Sessions flagged pyopt run in a `python -O` interpreter (one persistent server per process)."""
+    if session.get('config', {}).get('pyopt') and sys.flags.optimize == 0:
+        from .base import HarnessError
+        srv = _oserver()
+        srv.stdin.write(json.dumps(session) + '\n')
+        srv.stdin.flush()
+        line = srv.stdout.readline()
+        if not line:
+            raise HarnessError('python -O session server died')
+        r = json.loads(line)
+        if 'harness_error' in r:
+            raise HarnessError('in python -O server: ' + r['harness_error'])
+        if r.get('python_optimize', 0) < 1:
+            raise HarnessError('session server is not running under -O')
+        r.setdefault('probes', {})['session_under_python_O'] = 1
+        return r
+    return execute_here(session)
+
+
+def execute_here(session):
     w = session['world']
     if w == 'tn':
         return TNSession(session).run()
